@@ -44,8 +44,8 @@ func ruleSync(ctx context.Context, res daemon.PodResources) error {
 	}
 
 	for _, conf := range netConf {
-		if conf.BasicInfo == nil || conf.ENIInfo == nil ||
-			conf.BasicInfo.PodIP == nil {
+		if conf == nil || conf.BasicInfo == nil || conf.ENIInfo == nil ||
+			conf.BasicInfo.PodIP == nil || conf.BasicInfo.GatewayIP == nil {
 			continue
 		}
 		ifName := "eth0"
